@@ -8,7 +8,7 @@ from harness import xser, xbuild, defgen, genutil
 from harness.xser import V
 
 ID = "C18"
-REQUIRED_THEOREMS = ["rows_per_apid", "create_rows", "rejects_mixed", "fits_unsigned", "fits_signed", "enum_is_str",
+REQUIRED_THEOREMS = ["rows_per_apid", "create_rows", "alignRow_by_name", "alignRow_self", "rejects_mixed", "fits_unsigned", "fits_signed", "enum_is_str",
                      "rep_of_decode", "ieee_fits", "mil_fits"]
 RULE = ("requests `dataset <definition> <raw 0|1> ((file1 chunks) (file2 chunks) ...)`: definitions with one fixed layout "
         "per APID covering every parameter type and encoding, interleaved multi-APID streams split over 1..3 files, value "
@@ -56,6 +56,27 @@ def generate(rng, tier):
                         pk.append(extra[:rng.randrange(1, len(extra))])
                     files.append([hx(b"".join(pk))])
                 yield f"dataset {dsx} {raw} {sx(files)}", f"{'raw' if raw == '1' else 'derived'}-{nfiles}files"
+    # packets of one APID with the same field *set* in another order (two sibling containers listing the same parameters
+    # the other way round) are one field set: accepted, each value in the column of its parameter
+    made = 0
+    for _ in range(400):
+        if made >= (6 if tier == "quick" else 150):
+            break
+        d = defgen.Defn(rng, max_depth=2, fanout=3)
+        cand = [c for c in d.all if len(c.children) >= 2 and all(not ch.children for ch in c.children[:2]) and c is not d.root]
+        if not cand:
+            continue
+        par = rng.choice(cand)
+        a, b = par.children[0], par.children[1]
+        plain = [e for e in a.entries if e[0] == "p" and e[2].dyn is None and not e[2].control and not e[1].startswith("LEN")]
+        if len(plain) < 2 or len(plain) != len(a.entries) or len({e[1] for e in plain}) < 2:
+            continue
+        b.entries = list(reversed(a.entries))
+        pa = [p for p in d.paths() if p[-1] is a][0]
+        pb = [p for p in d.paths() if p[-1] is b][0]
+        pk = [d.encode(rng.choice([pa, pb]), "exact") for _ in range(rng.randrange(3, 7))] + [d.encode(pb, "exact"), d.encode(pa, "exact")]
+        made += 1
+        yield f"dataset {sx(d.sexpr())} {rng.choice('01')} {sx([[hx(b''.join(pk))]])}", "same-set-other-order"
     # streams whose packets of one APID differ in field set must be rejected
     for _ in range(6 if tier == "quick" else 200):
         d = defgen.Defn(rng, max_depth=2, fanout=3)
